@@ -305,8 +305,9 @@ func (f *ObjectLayoutFixer) fixLayout(mapping LayoutMapping, value octosql.Value
 		}
 		return octosql.NewList(out)
 	case octosql.TypeIDTuple:
-		out := make([]octosql.Value, len(value.Tuple))
-		for i := range out {
+		// A shorter source tuple is padded with NULLs to the length of the target tuple type.
+		out := make([]octosql.Value, len(mapping.Tuple.ElementMapping))
+		for i := range value.Tuple {
 			out[i] = f.fixLayout(mapping.Tuple.ElementMapping[i], value.Tuple[i])
 		}
 		return octosql.NewTuple(out)
@@ -400,6 +401,10 @@ func calculateMapping(targetType, sourceType octosql.Type) LayoutMapping {
 	case octosql.TypeIDTuple:
 		mappings := make([]LayoutMapping, len(targetType.Tuple.Elements))
 		for i := range mappings {
+			if i >= len(sourceType.Tuple.Elements) {
+				// The source tuple is shorter (TypeSum of tuples takes the longer one), nothing to map.
+				continue
+			}
 			mappings[i] = calculateMapping(targetType.Tuple.Elements[i], sourceType.Tuple.Elements[i])
 		}
 		return LayoutMapping{
